@@ -134,7 +134,7 @@
                                             end)
                           (make-uri scheme #f "")
                           (let* ((sc2 (string-cursor-forward str sc1 2))
-                                 (slash (string-find str #\/ sc2))
+                                 (slash (string-find str (lambda (c) (memv c '(#\/ #\? #\#))) sc2))
                                  (at (string-find-right str #\@ sc2 slash))
                                  (colon3
                                   (string-find
@@ -163,6 +163,7 @@
                                   (string->number
                                    (substring-cursor str (string-cursor-next str colon3) slash)))
                              (and (string-cursor<? slash end)
+                                  (eqv? #\/ (string-cursor-ref str slash))
                                   (decode
                                    (substring-cursor
                                     str slash (if (string-cursor<? quest end)
